@@ -1985,6 +1985,15 @@ class Interp(Engine):
                     z = conv(v)
                     acc = z3.If(z < acc, z, acc) if name == 'min' else z3.If(z > acc, z, acc)
                 return SV(acc, 'int' if allint else 'real')
+            if all(self.is_numeric(v) or (isinstance(v, SV) and v.kind == 'val') for v in vals) and any(self.is_numeric(v) for v in vals):
+                # an opaque scalar compared with numbers: its numeric value (assumed a real number, not NaN)
+                self.used_lib.add('min/max')
+                conv = lambda v: self.as_real(v) if self.is_numeric(v) else ufunc('real_of', 1, 'real')(v.z)
+                acc = conv(vals[0])
+                for v in vals[1:]:
+                    z = conv(v)
+                    acc = z3.If(z < acc, z, acc) if name == 'min' else z3.If(z > acc, z, acc)
+                return SV(acc, 'real')
             return self.app(name, vals)
         if name == 'abs':
             v = args[0]
